@@ -401,4 +401,18 @@ def redirectCheck (acts : List (String × Option (List Str))) : Except String (R
   | [] => .error "empty-list"
   | _ => .error "multi"
 
+
+/-! ### rule tables: load, reload, lookup (ReWriteTable / HeaderTable / RedirectTable `Update` + `Search`) -/
+
+/-- a history of (re)load attempts: `some c` = a rule file the loader accepts with content `c`, `none` = a file it refuses
+    (not JSON, unknown command, no Version, ...).  `Update` REPLACES the table; a refused file leaves it alone. -/
+def tableAfter {α : Type} (init : Option α) (loads : List (Option α)) : Option α :=
+  loads.foldl (fun t l => match l with | some c => some c | none => t) init
+
+/-- `Search(product)`: the rules of `product` in the current table (association list product ↦ rules) -/
+def tableSearch {α : Type} (t : Option (List (String × α))) (product : String) : Option α :=
+  match t with
+  | none => none
+  | some c => (c.find? (·.1 == product)).map (·.2)
+
 end BfeVerif.C49
